@@ -462,7 +462,8 @@ def case_sentinel(ctx, spec):
 # ----------------------------------------------------------------------------------------------
 # 2. rejections
 PROBES = ['label-into-capacity', 'capacity-into-label', 'details-on-reference', 'duplicate-id', 'other-type-delegation',
-          'xtype-json', 'pool-into-other-pools', 'delegations-into-other-pools', 'pool-details-wrong-type']
+          'xtype-json', 'pool-into-other-pools', 'delegations-into-other-pools', 'pool-details-wrong-type',
+          'text-details-on-reference', 'text-duplicate-id', 'text-mixed-content']
 
 
 def gen_reject(rng, probe=None):
@@ -497,6 +498,11 @@ def gen_reject(rng, probe=None):
         if all(e[1] == 'PoolReference' for e in entries):
             entries[0] = gen_entries(rng, t, n=1, formats=['SinglePool', 'PoolDefinition'], ids=[e[0] for e in entries[1:]])[0]
         s.update(type=t, entries=entries)
+    elif probe in ('text-details-on-reference', 'text-duplicate-id', 'text-mixed-content'):
+        # the same three rules when the delegations arrive as text: a well-formed set, edited as text
+        t = rng.choice(TYPES)
+        s.update(type=t, entries=gen_entries(rng, t, n=rng.randrange(1, 4)), at=rng.randrange(4), dt=t if rng.random() < 0.6 else other(t),
+                 kw=gen_kw(rng, t), okw=gen_kw(rng, other(t)), pool=gen_pool_name(rng), id=gen_name(rng, 'tdel'))
     elif probe == 'pool-into-other-pools':
         t = rng.choice(TYPES)
         s.update(type=t, pool=gen_pool_name(rng), id=gen_name(rng, 'del'), kw=gen_kw(rng, other(t)),
@@ -617,6 +623,34 @@ def case_reject(ctx, s):
                 return
             accepted(f'the text of a {t} delegation set with details decodes as a {other(t)} set', text=txt,
                      observed=obs_delegations(back) if back is not None else None)
+        elif probe in ('text-details-on-reference', 'text-duplicate-id', 'text-mixed-content'):
+            t = s['type']
+            field = {'LABEL': 'labels', 'CAPACITY': 'capacities'}
+            good = build_delegations(t, s['entries']).to_json()
+            items = list(json.loads(good).items())            # [(id, entry dict)] in the library's own spelling
+            det = json.loads(mk_details(t, s['kw']).to_json() or '{}')
+            odet = json.loads(mk_details(other(t), s['okw']).to_json() or '{}')
+            if not det or not odet:
+                ctx.count('rej-skip:empty-details')
+                return
+            at = s['at'] % (len(items) + 1)
+            if probe == 'text-details-on-reference':
+                items.insert(at, (s['id'], {'pool': s['pool'], field[s['dt']]: det if s['dt'] == t else odet}))
+            elif probe == 'text-duplicate-id':
+                k = items[s['at'] % len(items)][0]
+                items.insert(at, (k, {'pool_id': '_', field[t]: det}))
+            else:
+                items.insert(at, (s['id'], {'pool_id': '_', field[t]: det, field[other(t)]: odet}))
+            txt = '{' + ', '.join(json.dumps(k) + ': ' + json.dumps(v) for k, v in items) + '}'
+            try:
+                back = D.Delegations.from_json(json_str=txt, atype=T(t))
+            except Exception as e:
+                rejected(e)
+                return
+            accepted({'text-details-on-reference': 'details on a reference are accepted when the delegations arrive as text',
+                      'text-duplicate-id': 'a repeated delegation id is accepted when the delegations arrive as text',
+                      'text-mixed-content': 'an entry carrying label and capacity content is accepted when the delegations arrive as text'}[probe],
+                     text=txt, observed=obs_delegations(back) if back is not None else None)
         elif probe == 'pool-into-other-pools':
             t = s['type']
             ps = D.Pools(atype=T(t))
